@@ -13,12 +13,14 @@ QUERIES = [
   dict(name='jaeger_roundtrip', harness='c16', entry='h_jaeger_roundtrip', unwind=18, unwindset=US, timeout=900, shape='all ids, all 256 flag bytes'),
   dict(name='b3_variants', harness='c16', entry='h_b3_variants', unwind=18, unwindset=US, timeout=900, shape='64-bit ids, flag byte symbolic, flag present/absent, multi headers present'),
 ]
-for L in (0, 1, 3, 8):
+for L in (0, 1, 3, 8, 12):
     HARNESSES['c16_%d' % L] = h(L)
     QUERIES.append(dict(name='b3_single_total_len%d' % L, harness='c16_%d' % L, entry='h_b3_single_total', unwind=max(L, 16) + 3, unwindset=US, timeout=900,
-                        tier='quick' if L in (0, 3) else 'thorough', shape='every b3 header byte string of length %d' % L))
+                        tier='quick' if L in (0, 3) else 'thorough', shape='every b3 header byte string of length %d' % L,
+                        optional_reach=['b3 single: installed context has non-zero ids and is remote'] if L < 3 else []))
     QUERIES.append(dict(name='jaeger_total_len%d' % L, harness='c16_%d' % L, entry='h_jaeger_total', unwind=max(L, 16) + 3, unwindset=US, timeout=900,
-                        tier='quick' if L in (0, 3) else 'thorough', shape='every uber-trace-id byte string of length %d' % L))
+                        tier='quick' if L in (0, 3) else 'thorough', shape='every uber-trace-id byte string of length %d' % L,
+                        optional_reach=['jaeger: installed context has non-zero ids and is remote'] if L < 7 else []))
 BOUNDS = ['inject side: all ids/flags (one span context per query)', 'extract totality: header lengths listed per query']
 OUTSIDE = ['header byte strings longer than the listed lengths']
 ASSUMPTIONS = ['operator new never fails']
